@@ -48,6 +48,7 @@ func c18(c *core.Ctx) map[string]interface{} {
 	r18mode(c)
 	r18addr(c)
 	r16cred(c)
+	r2min(c) // the test-mode loop bounds are Min(...) of the configured counts
 	return nil
 }
 
@@ -288,13 +289,45 @@ func r18flow(c *core.Ctx, byTag map[string]string) {
 		if a, b, ok := minArgs(wantBounds[k]); ok {
 			alt = min(b, a)
 		}
-		c.Check(got == wantBounds[k] || (alt != "" && got == alt), R, key, call.Pos(), clipCfg(wantBounds[k], cfg), "the loop around %s is bounded by %s, want %s", shortName(parts[0]), clipCfg(got, cfg), clipCfg(wantBounds[k], cfg))
+		// a minimum is the minimum of the set of its operands: nesting, order and a variadic spelling do not matter
+		sameMin := strings.Join(minLeaves(got), "|") == strings.Join(minLeaves(wantBounds[k]), "|")
+		c.Check(got == wantBounds[k] || (alt != "" && got == alt) || sameMin, R, key, call.Pos(), clipCfg(wantBounds[k], cfg), "the loop around %s is bounded by %s, want %s", shortName(parts[0]), clipCfg(got, cfg), clipCfg(wantBounds[k], cfg))
 	}
 	c.Sites(n)
 	c.Floor(R, n, 40)
 }
 
 func clipCfg(s, cfg string) string { return strings.ReplaceAll(s, cfg, "cfg.") }
+
+// minLeaves: the operands of a (nested / variadic) stgutg.Min expression, sorted, without duplicates.
+func minLeaves(s string) []string {
+	pre := "call:" + pStg + ".Min("
+	set := map[string]bool{}
+	var walk func(e string)
+	walk = func(e string) {
+		e = strings.TrimSpace(e)
+		if strings.HasPrefix(e, pre) && strings.HasSuffix(e, ")") && matchParen(e, len(pre)-1) == len(e)-1 {
+			for _, a := range splitTop("[" + e[len(pre):len(e)-1] + "]") {
+				walk(a)
+			}
+			return
+		}
+		if strings.HasPrefix(e, "[") && strings.HasSuffix(e, "]") && len(splitTop(e)) > 0 {
+			for _, a := range splitTop(e) {
+				walk(a)
+			}
+			return
+		}
+		set[e] = true
+	}
+	walk(s)
+	var out []string
+	for k := range set {
+		out = append(out, k)
+	}
+	sort.Strings(out)
+	return out
+}
 
 func minArgs(s string) (string, string, bool) {
 	pre := "call:" + pStg + ".Min("
